@@ -259,7 +259,9 @@ def disk_tree(rng, max_entries=30, max_depth=5, types=("dir", "file", "symlink",
             if t == "file":
                 e["size"] = rng.choice(file_sizes)
             elif t == "symlink":
-                e["ln"] = hx(rng.choice([b"a", b"../a", b"/abs/x", b"b/c", b".", b"..", b"a b", b"\xff"]))
+                # (targets are opaque strings: also ones that are not in lexically clean form, and one longer than a tar header field)
+                e["ln"] = hx(rng.choice([b"a", b"../a", b"/abs/x", b"b/c", b".", b"..", b"a b", b"\xff",
+                                         b"a/", b"./a", b"a//b", b"a/./b", b"x/../y", b"../../", b"/abs//x/", b"d/" * 60 + b"f"]))
             elif t == "hardlink":
                 src = rng.choice(linkable)
                 e["ln"] = src["p"]
